@@ -38,7 +38,7 @@ CHECKS = {
     "C01": rust("model_checking", [("std", "c01", []), ("nostd", "c01", [])], [("std", "c01", []), ("nostd", "c01", [])]),
     "C02": rust("model_checking", [("std", "c02", []), ("nostd", "c02", [])], [("std", "c02", []), ("nostd", "c02", [])]),
     "C04": rust("model_checking", [("std", "c04", []), ("nostd", "c04", [])], [("std", "c04", []), ("nostd", "c04", [])]),
-    "C07": rust("model_checking", [("std", "c07", []), ("nostd", "c07", [])], [("std", "c07", []), ("nostd", "c07", [])]),
+    "C07": rust("model_checking", [("std", "c07", []), ("nostd", "c07", []), ("std", "c07s", ["optional"])], [("std", "c07", []), ("nostd", "c07", []), ("std", "c07s", ["optional"])]),
     "C10": rust("model_checking", [("std", "c10", [])]),
     "C09": rust("model_checking", [("std", "c09", [])]),
     "C08": rust("model_checking", [("std", "c08", []), ("nostd", "c08", [])], [("std", "c08", []), ("nostd", "c08", [])]),
